@@ -6,6 +6,7 @@
 -/
 import ProphyModel.Cpp
 import ProphyModel.Lemmas.CppDecodeSafe
+import ProphyModel.Lemmas.CppDecodeExact
 namespace Prophy.C07
 open Prophy Prophy.Cpp
 
@@ -78,5 +79,25 @@ theorem C07_resizes_bounded (t : Ty) (data : Bytes) (e : Endian) :
     ∀ n ∈ (decode t data e).resizes,
       n ≤ data.length ∧ ((decode t data e).isException = false → n ≤ resizeLimit) :=
   Cpp.decode_resizes_bounded t data e
+
+/-- FULL STATEMENT, second clause: whatever byte string the decoder accepts, it consumed it exactly -
+    the decoded object re-encodes to as many bytes as were read (`get_byte_size() = size`); schemas
+    accepted by prophyc, without shifted counters and without the D4 shape (`limFirst`: the arrays
+    sharing a counter with a limited array start with it - always so for schemas the C++ generator
+    accepts, which allows one externally sized array per counter) -/
+theorem C07_accepted_is_exact (t : Ty) (data : Bytes) (e : Endian) (v : Val) (rs : List Nat)
+    (hf : Accept.front t = true) (hns : Accept.noShift t = true) (hm : Cpp.optMisaligned t = false)
+    (hlf : Cpp.limFirst t = true) (hlen : data.length < 2 ^ 64)
+    (h : decode t data e = .accepted v rs) : getByteSize t v = data.length :=
+  Cpp.decode_accepted_exact t data e v rs hf hns hm hlf hlen h
+
+/-- ... and the object it built is a valid, coherent value of the type - except that C++ keeps
+    whatever 32-bit integer an enum field held (`hasTypeW`: the Python decoder checks enumerators,
+    the C++ decoder does not; witness `Cpp.decode_accepted_hasType_false`) -/
+theorem C07_accepted_is_typed (t : Ty) (data : Bytes) (e : Endian) (v : Val) (rs : List Nat)
+    (hf : Accept.front t = true) (hns : Accept.noShift t = true) (hm : Cpp.optMisaligned t = false)
+    (hlf : Cpp.limFirst t = true) (h : decode t data e = .accepted v rs) :
+    Cpp.hasTypeW t v = true ∧ WF.agreeTy t v = true :=
+  Cpp.decode_accepted_typed t data e v rs hf hns hm hlf h
 
 end Prophy.C07
